@@ -214,8 +214,8 @@ HARNESSES = [
        bounds={'threads': 2, 'free_rounds': 2, 'forced_rounds': 2, 'spin_unroll': 2, 'memory_model': 'SC', 'threshold': '1-2', 'cut': 'prioritize_task, spawn_in_graph_arena, '
                'reservable_predecessor_cache::try_reserve_impl, forwarder task constructor (all proved unreachable in these scenarios: no predecessor)'}),
   dict(name='limiter_pull_threads', unit='lim_pull2', harness='h_lim_pull.c', cbmc=['--unwind', '12', '--object-bits', '12'], native_cflags=['-fno-sanitize=null'],
-       defines={'memset': 'vp_memset', 'ROUNDS': 1}, tiers=['thorough'], timeout=3400, mem_gb=16,
-       scenarios=[{'WOP': 0, 'REGP': 1}, {'WOP': 1, 'REGP': 0}, {'WOP': 2, 'REGP': 1}],
+       defines={'memset': 'vp_memset', 'ROUNDS': 1}, tiers=['thorough'], timeout=7200, mem_gb=16,
+       scenarios=[{'WOP': 0, 'REGP': 1}, {'WOP': 1, 'REGP': 0}],   # WOP 2 (both in sequence) passes too but needs ~50 min: not registered
        desc='limiter_node<int,int> in pull mode, 2 threads: F = the real forward_task() of a forwarder in flight (reserves from a one-item harness predecessor, is refused by the successor, '
             'releases, re-checks), W = the refusing successor re-registering (real register_successor) and/or a decrement (real decrement_counter -> forward_task inline). No stuck message: '
             'at quiescence NOT (count+tries < threshold AND predecessor holds an unreserved message AND successor registered AND no forwarder task pending); my_tries == 0, my_count exact, '
@@ -246,7 +246,7 @@ MANIFEST = dict(
              '(item_buffer unit validated per run by the selftest differential), cbmc.',
 )
 OUTSIDE = [
-  'several threads calling into one aggregator-based node at once (buffer/queue/priority/sequencer nodes, join ports fed concurrently): the aggregator is replaced by its uncontended behaviour. Concurrent callers ARE covered for the spin_mutex-guarded nodes: overwrite_node / write_once_node try_put (2 threads quick, 3 thorough) and limiter_node put-vs-decrement / put-vs-put (2 threads, thorough); not covered concurrently: overwrite try_get/register_successor/clear racing a put, limiter with a cached predecessor, continue_receiver, broadcast_node / split_node / indexer_node successor caches (spin_rw_mutex)',
+  'several threads calling into one aggregator-based node at once (buffer/queue/priority/sequencer nodes, join ports fed concurrently): the aggregator is replaced by its uncontended behaviour. Concurrent callers ARE covered for the spin_mutex-guarded nodes: overwrite_node / write_once_node try_put (2 threads quick, 3 thorough) and limiter_node put-vs-decrement / put-vs-put (2 threads, thorough); and the limiter's pull-mode hand-shake (forwarder in flight vs re-registering successor / decrement, 2 threads, thorough); not covered concurrently: overwrite try_get/register_successor/clear racing a put, limiter pull mode with more than one predecessor item / several forwarders running at once / register_predecessor racing, continue_receiver, broadcast_node / split_node / indexer_node successor caches (spin_rw_mutex)',
   'join_node with key_matching / tag_matching policy (hash buffers, key count table) and joins with more than 2 ports',
   'limiter_node: a decrement delivered synchronously on the thread that is forwarding (lightweight successor feeding the decrementer) while the limiter holds a cached predecessor and count+tries < threshold: '
   'the real code self-deadlocks on broadcast_cache\'s spin_rw_mutex (liveness defect, reproducer props/C15/repro_limiter_selfdeadlock.cpp); these scenarios are not generated',
